@@ -19,8 +19,11 @@ def build(repo, tier, seed):
     f_syn, f_und = factory.obligations(repo)
     syn = syn + [x for x in f_syn if "evaluates-nothing" in x["name"]]
     und = und + f_und
-    from . import chained_effect
+    from . import chained_effect, collections_c05
     ce_vcs, ce_und = chained_effect.build(repo)
+    co_syn, co_und = collections_c05.obligations(repo)
+    syn = syn + [x for x in co_syn if "evaluates-nothing" in x["name"]]
+    ce_und = ce_und + co_und
     und = und + ce_und
     import hashlib
     hashes = {"labrea/*.py": hashlib.sha256("".join(m.source for _, m in sorted(repo.modules.items())).encode()).hexdigest()[:16]}
